@@ -95,7 +95,7 @@ def run_fit(p):
         # give the validation set some spread so that routed validation rows exist on both sides when possible
         Xv = torch.cat([Xv, X[: min(6, p['n'])]])
         yv = torch.cat([yv, y[: min(6, p['n'])]])
-    kw = dict(max_leaf_size=p['L'], number_of_splits=p['nsplits'], device='cpu', verbose=False,
+    kw = dict(max_leaf_size=p['L'], number_of_splits=p['nsplits'], device='cpu', verbose=False, n_trees=p.get('trees', 1),
               overlap_fraction=p['f'], split_method=p['method'], use_temperature_tuning=False,
               random_state=p['dseed'], refill_size=p.get('refill', 10),
               rfm_params={'model': {'kernel': 'l2', 'bandwidth': 5.0, 'exponent': 1.0, 'diag': False,
@@ -175,9 +175,15 @@ def execute(chunk):
             elif 'error' in m:
                 res['disagreements'].append({'detail': f'model rejects: {m["error"]}'})
             else:
-                impl = xrec.size_tree(roots[0]) if roots else None
-                if impl != m['tree']:
-                    res['disagreements'].append({'detail': f'size tree differs: impl {str(impl)[:300]} model {str(m["tree"])[:300]}'})
+                # every tree of the ensemble is built by the same size recursion (own split counter per tree)
+                want_trees = p.get('trees', 1) if (m['tree'].get('node') is not None) else 1
+                if len(roots) != want_trees:
+                    res['disagreements'].append({'detail': f'{len(roots)} trees built, expected {want_trees}'})
+                for k, root in enumerate(roots):
+                    impl = xrec.size_tree(root)
+                    if impl != m['tree']:
+                        res['disagreements'].append({'detail': f'size tree {k} differs: impl {str(impl)[:300]} model {str(m["tree"])[:300]}'})
+                        break
             res['nontrivial'] = [p['L'], p['n'], p['f'], p['nsplits'], p['method'], p['data'], p['stub']] \
                 if p['n'] > p['L'] or p['nsplits'] else None
             d = res.setdefault('dist', {})
@@ -213,6 +219,13 @@ def gen_cases(run):
                             continue
                         cases.append(dict(family='size-grid-stub', L=L, n=n, f=f, nsplits=ns, method='random', data='random',
                                           d=3, dseed=(L * 131 + n) % 9973, stub=True))
+    # (A') ensembles: every tree gets its own split counter and the same size skeleton
+    for L in (4, 8):
+        for n in (L - 1, 2 * L + 1, 5 * L):
+            for ns in (None, 1, 3):
+                for trees in (2, 3):
+                    cases.append(dict(family='size-grid-stub', L=L, n=n, f=0.0, nsplits=ns, method='random', data='random',
+                                      d=3, dseed=(L * 31 + n) % 997, stub=True, trees=trees))
     # (B) real fits: every split method x data kind
     reps = 1 if run.tier == 'quick' else 5
     for rep in range(reps):
